@@ -7,7 +7,7 @@ From PV.Gen Require Import GenConst GenFun.
 From PV.Model Require Import Names Checksums Pack Alloc Codec Eltorito Account AccountLinks AccountBoot.
 From PV.Proofs Require Import PackProofs AllocProofs ChecksumsArithProofs AccountLemmas AccountProofs
      AccountLinksLemmas AccountLinksPurge AccountLinksInv EltoritoCatalogProofs EltoritoBuiltProofs
-     AccountBootLemmas AccountBootInv AccountBootInv2.
+     AccountBootLemmas AccountBootInv AccountBootInv2 AccountBootFix.
 Import ListNotations.
 Local Open Scope Z_scope.
 Ltac Zify.zify_post_hook ::= Z.to_euclidean_division_equations.
@@ -180,6 +180,67 @@ Proof.
   split; [exact Hp|]. split; [exact H5|lia].
 Qed.
 
+(* the CURRENT code (d8f44b3): every boot file is non-empty, so every entry points at the boot
+   file's OWN data: at least one block, inside the volume, and disjoint from the blocks of every
+   other inode that has been placed *)
+Lemma ab_assoc_lower (f : nat -> Z) : (forall i, 0 <= f i) -> forall l st j v,
+  assoc j (combine l (bump st (map f l))) = Some v -> st <= fst v /\ snd v = f j.
+Proof.
+  intros Hf. induction l as [|a r IH]; intros st j v; cbn [map bump combine assoc]; [discriminate|].
+  destruct (Nat.eqb_spec a j) as [->|Hne].
+  - intros H. inversion H. cbn [fst snd]. split; [lia|reflexivity].
+  - intros H. destruct (IH _ _ _ H) as [H1 H2]. specialize (Hf a). split; [lia|exact H2].
+Qed.
+
+Lemma ab_assoc_disjoint (f : nat -> Z) : (forall i, 0 <= f i) -> forall l st i j vi vj, i <> j ->
+  assoc i (combine l (bump st (map f l))) = Some vi ->
+  assoc j (combine l (bump st (map f l))) = Some vj -> disjoint vi vj.
+Proof.
+  intros Hf. induction l as [|a r IH]; intros st i j vi vj Hij; cbn [map bump combine assoc]; [discriminate|].
+  destruct (Nat.eqb_spec a i) as [->|Hai]; destruct (Nat.eqb_spec i j) as [E|_]; try contradiction.
+  - destruct (Nat.eqb_spec i j); [contradiction|]. intros H1 H2. inversion H1. subst vi.
+    destruct (ab_assoc_lower f Hf _ _ _ _ H2) as [L _]. left. cbn [fst snd]. exact L.
+  - destruct (Nat.eqb_spec a j) as [->|Haj].
+    + intros H1 H2. inversion H2. subst vj.
+      destruct (ab_assoc_lower f Hf _ _ _ _ H1) as [L _]. right. cbn [fst snd]. exact L.
+    + apply IH, Hij.
+Qed.
+
+Theorem ab_load_rba_own_extent ops b k i :
+  let s := brun binit ops in
+  bboot s = Some b -> nth_error (binos b) k = Some i ->
+  len_of i (linodes (bl s)) <> 0 /\
+  exists e, nth_error (entry_rbas s) k = Some e /\ ino_extent s i = Some e /\
+            0 < blk_of s i /\ cat_extent s < e /\ e + blk_of s i <= lspace (bl s) /\
+            forall j ej, j <> i -> ino_extent s j = Some ej -> disjoint (e, blk_of s i) (ej, blk_of s j).
+Proof.
+  intros s Hb Hk. subst s. set (s := brun binit ops) in *.
+  pose proof (ab_run_inv ops) as HI. fold s in HI. destruct (ab_run_fix ops) as [F1 _]. fold s in F1.
+  assert (Hlen : len_of i (linodes (bl s)) <> 0).
+  { apply F1. rewrite Hb. cbn [erefs]. apply ab_count_pos. eapply nth_error_In. exact Hk. }
+  split; [exact Hlen|].
+  destruct (ab_catalog_points_at_files ops b Hb) as (_ & _ & _ & H). fold s in H.
+  destruct (H k i Hk) as (_ & e & H1 & H2 & _ & H4 & H5).
+  destruct (ab_load_rba_inside_partial ops b k i Hb Hk Hlen) as (e' & E1 & Hp & _). fold s in E1, Hp.
+  exists e. split; [exact H2|]. split; [exact H1|]. split; [exact Hp|]. split; [exact H4|]. split; [exact H5|].
+  intros j ej Hne Hj. unfold ino_extent in H1, Hj.
+  destruct (assoc i (placed s)) as [vi|] eqn:Ai; [|discriminate].
+  destruct (assoc j (placed s)) as [vj|] eqn:Aj; [|discriminate].
+  unfold placed in Ai, Aj.
+  pose proof (ab_assoc_disjoint (blk_of s) (fun x => ab_blk_nonneg s x HI) _ _ _ _ _ _ (not_eq_sym Hne) Ai Aj) as D.
+  destruct (ab_assoc_lower (blk_of s) (fun x => ab_blk_nonneg s x HI) _ _ _ _ Ai) as [_ Si].
+  destruct (ab_assoc_lower (blk_of s) (fun x => ab_blk_nonneg s x HI) _ _ _ _ Aj) as [_ Sj].
+  inversion H1. inversion Hj. subst e ej. rewrite <- Si, <- Sj. destruct vi, vj. exact D.
+Qed.
+
+(* the CURRENT code (6a3f4a5): a boot info table sits only on inodes that El Torito entries refer to *)
+Theorem ab_bits_on_boot_files ops i :
+  let s := brun binit ops in In i (bbits s) -> 0 < erefs i (bboot s) /\ In i (ids (linodes (bl s))).
+Proof.
+  intros s Hi. destruct (ab_run_fix ops) as [_ F2]. specialize (F2 i Hi). split; [exact F2|].
+  destruct (bi_live s (ab_run_inv ops)) as (_ & _ & HE). apply HE, F2.
+Qed.
+
 (* ---- 5. refusals ------------------------------------------------------------------------------------------ *)
 
 Ltac break_match :=
@@ -197,29 +258,69 @@ Qed.
 Lemma ab_state_eta s : {| bl := bl s; bboot := bboot s; bbits := bbits s; bwreck := bwreck s |} = s.
 Proof. destruct s; reflexivity. Qed.
 
-Lemma ab_add_eltorito_ref s bp cd cn ls pf bit efi m ba sg s' :
-  bstep_add_eltorito s bp cd cn ls pf bit efi m ba sg = (s', Ref) -> s' = s.
+Lemma ab_add_eltorito_ref fx s bp cd cn ls pf bit efi m ba sg s' :
+  bstep_add_eltorito fx s bp cd cn ls pf bit efi m ba sg = (s', Ref) -> s' = s.
 Proof.
   unfold bstep_add_eltorito, brefuse. cbv zeta.
   destruct (m =? 2); [intros H; inversion H; reflexivity|].
   destruct (lsubtree bp (lroot (bl s))) as [[fn i fs|dn dl kids]|]; try (intros H; inversion H; reflexivity).
   destruct (negb (has_ino i (linodes (bl s)))); [intros H; inversion H; reflexivity|].
+  destruct (fx && (len_of i (linodes (bl s)) =? 0)); [intros H; inversion H; reflexivity|].
   destruct (bboot s) as [b|] eqn:Hb.
   - destruct (cat_add_section _ _ _ _ _ _ _); [discriminate|].
-    destruct (Nat.eqb (length (add_bit bit i (bbits s))) (length (bbits s))) eqn:E; cbn [negb]; [|discriminate].
-    intros H. inversion H. rewrite (ab_add_bit_same _ _ _ E), <- Hb. apply ab_state_eta.
+    destruct fx.
+    + rewrite Nat.eqb_refl. cbn [negb]. intros H. inversion H. rewrite <- Hb. apply ab_state_eta.
+    + destruct (Nat.eqb (length (add_bit bit i (bbits s))) (length (bbits s))) eqn:E; cbn [negb]; [|discriminate].
+      intros H. inversion H. rewrite (ab_add_bit_same _ _ _ E), <- Hb. apply ab_state_eta.
   - destruct (cat_new _ _ _ _ _ _); [|discriminate].
     destruct (snd (add_record _ _ _ _ _ _)); discriminate.
 Qed.
 
-(* an operation refused with outcome Ref leaves the state unchanged *)
-Theorem ab_refused_unchanged s o s' : bstep s o = (s', Ref) -> s' = s.
+(* an operation refused with outcome Ref leaves the state unchanged (both versions of the code) *)
+Theorem ab_refused_unchanged_gen fx s o s' : bstep_gen fx s o = (s', Ref) -> s' = s.
 Proof.
-  unfold bstep, brefuse. destruct (bwreck s); [intros H; inversion H; reflexivity|].
+  unfold bstep_gen, brefuse. destruct (bwreck s); [intros H; inversion H; reflexivity|].
   destruct o; try apply ab_add_eltorito_ref;
-    unfold lift, bstep_add_link, bstep_add_cat_link, bstep_rm_link, bstep_rm_file,
+    unfold lift, bstep_add_link, bstep_add_cat_link, add_cat_name, bstep_rm_link, bstep_rm_file,
       bstep_rm_eltorito, lift, brefuse; cbv zeta;
     break_match; intros H; inversion H; reflexivity.
+Qed.
+
+Theorem ab_refused_unchanged s o s' : bstep s o = (s', Ref) -> s' = s.
+Proof. apply ab_refused_unchanged_gen. Qed.
+
+(* the current code: the only refusal that changes anything is the FIRST add_eltorito failing after
+   self.brs.append (the known late refusals); it changes nothing the model tracks but the wreck flag *)
+Theorem ab_late_is_first_call s o s' : bstep s o = (s', Late) ->
+  bboot s = None /\ bwreck s = false /\
+  s' = {| bl := bl s; bboot := bboot s; bbits := bbits s; bwreck := true |}.
+Proof.
+  unfold bstep, bstep_gen, brefuse. destruct (bwreck s) eqn:Hw; [discriminate|].
+  destruct o;
+    try (unfold lift, bstep_add_link, bstep_add_cat_link, add_cat_name, bstep_rm_link, bstep_rm_file,
+           bstep_rm_eltorito, lift, brefuse; cbv zeta; break_match; discriminate).
+  unfold bstep_add_eltorito, brefuse. cbv zeta.
+  destruct (media =? 2); [discriminate|].
+  destruct (lsubtree bootp (lroot (bl s))) as [[fn i fs|dn dl kids]|]; try discriminate.
+  destruct (negb (has_ino i (linodes (bl s)))); [discriminate|].
+  destruct (true && (len_of i (linodes (bl s)) =? 0)); [discriminate|].
+  rewrite Nat.eqb_refl. cbn [negb].
+  destruct (bboot s) as [b|] eqn:Hb.
+  - destruct (cat_add_section _ _ _ _ _ _ _); discriminate.
+  - destruct (cat_new _ _ _ _ _ _); [destruct (snd (add_record _ _ _ _ _ _)); [discriminate|]|];
+      intros H; inversion H; repeat split; reflexivity.
+Qed.
+
+(* ... so every refused call that adds a SECTION (6a3f4a5), and every other refused operation, leaves
+   the object unchanged *)
+Theorem ab_refused_unchanged_unless_first_call s o s' oc :
+  bstep s o = (s', oc) -> oc <> Acc -> (forall b, bboot s = Some b -> s' = s) /\ (bwreck s' = bwreck s -> s' = s).
+Proof.
+  intros Hstep Hoc. destruct oc; [contradiction| |].
+  - pose proof (ab_refused_unchanged s o s' Hstep) as E. split; intros; exact E.
+  - destruct (ab_late_is_first_call s o s' Hstep) as (Hb & Hw & E). split.
+    + intros b Hb'. congruence.
+    + intros H. rewrite E in H. cbn [bwreck] in H. congruence.
 Qed.
 
 (* rm_file on a name of the boot catalog, or on a name of a boot file, is refused *)
@@ -229,7 +330,7 @@ Theorem ab_rm_file_refused s dirp nm dn dl kids k cn i st :
   in_cat i (bboot s) = true \/ (has_ino i (linodes (bl s)) = true /\ 0 < erefs i (bboot s)) ->
   bstep s (BRmFile dirp nm) = (s, Ref).
 Proof.
-  intros Hw Hsub Hl H. unfold bstep. rewrite Hw. unfold bstep_rm_file. rewrite Hsub, Hl.
+  intros Hw Hsub Hl H. unfold bstep, bstep_gen. rewrite Hw. unfold bstep_rm_file. rewrite Hsub, Hl.
   destruct (in_cat i (bboot s)); [reflexivity|]. destruct H as [H|[H1 H2]]; [discriminate|].
   rewrite H1. apply Z.ltb_lt in H2. rewrite H2. reflexivity.
 Qed.
@@ -243,7 +344,7 @@ Theorem ab_rm_link_hides_boot_file s dirp nm dn dl kids k cn i st s' :
   linodes (bl s') = linodes (bl s) /\ erefs i (bboot s') = erefs i (bboot s) /\
   exists sh, (sh = 0 \/ sh = 1) /\ lspace (bl s') = lspace (bl s) - sh.
 Proof.
-  intros Hw Hsub Hl He. unfold bstep. rewrite Hw. unfold bstep_rm_link. rewrite Hsub, Hl. cbv zeta.
+  intros Hw Hsub Hl He. unfold bstep, bstep_gen. rewrite Hw. unfold bstep_rm_link. rewrite Hsub, Hl. cbv zeta.
   rewrite ab_rm_record_root.
   pose proof (lrefcount_nonneg i (lreplace dirp (LDir dn (dlen (dir_remove C (ldir_st dl kids) (2 + k)))
                                              (remove_at k kids)) (lroot (bl s)))) as N.
@@ -261,6 +362,10 @@ Print Assumptions ab_boot_file_cannot_vanish.
 Print Assumptions ab_objects_disjoint_and_inside.
 Print Assumptions ab_catalog_points_at_files.
 Print Assumptions ab_load_rba_inside_partial.
-Print Assumptions ab_refused_unchanged.
+Print Assumptions ab_load_rba_own_extent.
+Print Assumptions ab_bits_on_boot_files.
+Print Assumptions ab_refused_unchanged_gen.
+Print Assumptions ab_late_is_first_call.
+Print Assumptions ab_refused_unchanged_unless_first_call.
 Print Assumptions ab_rm_file_refused.
 Print Assumptions ab_rm_link_hides_boot_file.
